@@ -170,13 +170,13 @@ func Generate(t Drawer, opt GenOpt) (*World, *Meta) {
 			dir = fmt.Sprintf("twin%d/%s", i, name)
 		}
 		pd := &PkgDecl{Index: i, Name: name, Qual: qual, Dir: dir, Path: w.Module + "/" + dir, TwinOf: -1}
-		if name != qual {
+		if name != qual && d.chance(1, 2) {
 			for k := 0; k < i; k++ {
 				if m.Decls[k].Name == name && m.Decls[k].TwinOf < 0 {
 					pd.TwinOf = k // "templated" sibling package: same layout, same annotations, other path
 				}
 			}
-		}
+		} // otherwise: merely the same package name, its own imports and declarations
 		if strings.HasPrefix(shape, "pkg") || strings.HasSuffix(shape, ".d") {
 			pd.AliasImport = d.chance(1, 2)
 		}
@@ -700,6 +700,7 @@ var shapes = []shape{
 	{"incdec", []string{"x.A++"}},
 	{"index-slice", []string{"x.Items[0] = 3"}},
 	{"index-map", []string{`x.M["k"] = 4`}},
+	{"index-compound", []string{"x.Items[(len(x.Items)+x.A)%1] = 12"}},
 	{"assign-B", []string{"x.B = 5"}},
 	{"assign-C", []string{"x.C = 6"}},
 	{"decr-D", []string{"x.D--"}},
